@@ -66,3 +66,17 @@ Proof.
       try (destruct i as [|[|i]]; reflexivity); try (destruct c as [|[|c]]; reflexivity).
   - split; [vm_compute; reflexivity|]. split; reflexivity.
 Qed.
+
+(* subscriber 1 cancels from inside its terminal callback: id 1 is removed by its own cancel and again
+   by dispatch; subscriber 0 on the same connection keeps receiving, nobody gets a connection error *)
+Definition tr_double : list action :=
+  tr_two ++ [UpMsg 0 1 KComplete; ACtxCancel 1; AUnsub 1; AUnsubSend 1; ARemove 1; ARLRemove 0; UpMsg 0 0 (KData 5)].
+Example ex_double_remove :
+  exists s log x, run (init false) tr_double = Some (s, log) /\ safe_run (init false) tr_double
+    /\ In (ODeliver 0 (KData 5)) log /\ isolated_log_b log = true /\ routing_b log = true
+    /\ cns s 0 = Some x /\ c_closed x = false /\ c_subs x = [(0, 0)].
+Proof.
+  do 3 eexists. split; [vm_compute; reflexivity|]. split; [vm_compute; tauto|].
+  split; [vm_compute; tauto|]. split; [vm_compute; reflexivity|]. split; [vm_compute; reflexivity|].
+  split; [vm_compute; reflexivity|]. split; reflexivity.
+Qed.
